@@ -1,6 +1,6 @@
 (* C09 — Concurrent writers are linearizable: no update is ever lost.  Property theorems only. *)
 From Coq Require Import List Bool Arith.
-From SC Require Import Model.Conc Proofs.ConcMutex Proofs.ConcFaults.
+From SC Require Import Model.Class Model.Machine Model.Conc Proofs.ConcMutex Proofs.ConcFaults Proofs.ConcInstances.
 Import ListNotations.
 
 (* For every number of threads, every program of lock-protected operations (any number of locks = (class, file)
@@ -46,3 +46,15 @@ Theorem C09_well_locked_means : forall p l, well_locked p l = true ->
   forall faults, acts_under_lock (snd (sexec p faults held0)) held0 l T_VALIDATE = true.
 Proof. exact well_locked_sound. Qed.
 Print Assumptions C09_well_locked_means.
+
+(* the same theorem with the bodies instantiated by Machine.v's own step function (load, body, write-back, save
+   of a whole public operation): every schedule of writer threads on one file ends in the state of executing
+   the completed operations one at a time, in their release order — to which C01 / C04 apply *)
+Theorem C09_machine_serial : forall T (s0 : mstate) (ths : nat -> list mop) (sched : list nat),
+  let P := fun t => map (mach_op T) (ths t) in
+  let c := exec mstate mresult (option mresult) (init_config mstate mresult (option mresult) (fun _ => s0) P) sched in
+  quiescent mstate mresult (option mresult) c ->
+  forall ops, mlog_ops T (log mstate mresult (option mresult) c) ops ->
+    sh mstate mresult (option mresult) c 0 = fold_left (fun st op => fst (step T st op)) ops s0.
+Proof. exact writer_threads_serial. Qed.
+Print Assumptions C09_machine_serial.
